@@ -26,6 +26,9 @@ static const char* err_name(Error e) {
     case Error::kExpressionLabelNotBound: return "ExpressionLabelNotBound";
     case Error::kInvalidAddress64Bit: return "InvalidAddress64Bit";
     case Error::kNoCodeGenerated: return "NoCodeGenerated";
+    case Error::kInvalidLabelName: return "InvalidLabelName";
+    case Error::kLabelNameTooLong: return "LabelNameTooLong";
+    case Error::kLabelAlreadyDefined: return "LabelAlreadyDefined";
     default: break;
   }
   static char buf[32];
@@ -84,6 +87,18 @@ static std::string step(const std::string& line) {
   if (op == "newlabel" && w.size() == 1) {
     a->new_label();
     return answer(Error::kOk);
+  }
+  if ((op == "newnamed" || op == "byname") && w.size() == 2) {
+    // `-` = the empty name, `@n` = a name of n letters
+    std::string name = w[1];
+    if (name == "-") name.clear();
+    else if (name[0] == '@') name = std::string(size_t(atoi(name.c_str() + 1)), 'a');
+    if (op == "newnamed") {
+      uint32_t id = Globals::kInvalidId;
+      return answer(code.new_named_label_id(Out(id), name.data(), name.size(), LabelType::kGlobal));
+    }
+    uint32_t id = code.label_id_by_name(name.data(), name.size());
+    return id == Globals::kInvalidId ? std::string("id=invalid") : "id=" + std::to_string(id);
   }
   if (op == "newsection" && w.size() == 3) {
     int64_t order;
